@@ -131,3 +131,21 @@ def optics(rng, aniso_p=0.5):
     dus = (du, du * float(rng.uniform(0.6, 1.6))) if rng.random() < aniso_p else du
     os_ = int(rng.integers(1, 5))
     return wl, z, dxs, dus, os_
+
+
+def layout(rng, a, p=0.35):
+    """The same values in another memory layout (the result compares equal to `a`): Fortran order, a view with negative
+    strides, or a strided window into a larger buffer.  Callers pass the returned array to lentil and keep `a` for the model."""
+    a = np.asarray(a)
+    if a.ndim < 2 or rng.random() > p:
+        return a
+    k = int(rng.integers(0, 4))
+    if k == 0:
+        return np.asfortranarray(a)
+    if k == 1:
+        return a[..., ::-1, ::-1].copy()[..., ::-1, ::-1]
+    if k == 2:
+        big = np.zeros(a.shape[:-2] + (2 * a.shape[-2] + 1, 3 * a.shape[-1] + 2), dtype=a.dtype)
+        big[..., 1::2, 2::3][..., :a.shape[-2], :a.shape[-1]] = a
+        return big[..., 1::2, 2::3][..., :a.shape[-2], :a.shape[-1]]
+    return a.T.copy().T if a.ndim == 2 else np.moveaxis(np.moveaxis(a, 0, -1).copy(), -1, 0)
